@@ -34,7 +34,8 @@ def _case(draw):
     frac = draw(st.sampled_from([1 / 4.0, 1 / 8.0, 1 / 16.0, 0.1, 0.3, 0.05, 0.5]))
     return dict(part="lookup", method=method, dtype="float64", prob=prob, y0=draw(PR.state([2])), t0=t0, tf=tf, dt=L * frac,
                 rtol=1e-6, atol=1e-6, dense=draw(st.booleans()), cut=draw(st.sampled_from([None, 0.5, 0.3])),
-                qfrac=draw(st.lists(st.floats(0.0, 1.0), min_size=4, max_size=8)), outside=draw(st.sampled_from([0.1, 1.0, 10.0])), itype=draw(st.integers(0, 3)))
+                qfrac=draw(st.lists(st.floats(0.0, 1.0), min_size=4, max_size=8)), outside=draw(st.sampled_from([0.1, 1.0, 10.0])), itype=draw(st.integers(0, 3)),
+                against=draw(st.sampled_from([False, False, True])), flip_tf=draw(st.sampled_from([False, False, True])))
 
 
 def parts(tier):
@@ -49,8 +50,14 @@ def check(case):
     backward = case["tf"] < case["t0"]
     attrs = dict(method=method, family=fam, dense=bool(case["dense"]), direction="backward" if backward else "forward")
     labels = ["family:" + fam, "dense:on" if case["dense"] else "dense:off", "backward" if backward else "forward"]
-    a, f, y0 = traj.make_system(case)
-    targets = ([case["t0"] + case["cut"] * (case["tf"] - case["t0"])] if case["cut"] else []) + [None]
+    mirror = case["t0"] - (case["tf"] - case["t0"])
+    if case.get("against"):
+        # the system is declared over the mirrored span and every call is an explicit integrate(t) against it
+        a, f, y0 = traj.make_system(dict(case, tf=mirror))
+        labels.append("calls_against_declared_span")
+    else:
+        a, f, y0 = traj.make_system(case)
+    targets = ([case["t0"] + case["cut"] * (case["tf"] - case["t0"])] if case["cut"] else []) + [np.float64(case["tf"]) if case.get("against") else None]
     before = None
     for tg in targets:
         if before is not None:
@@ -86,6 +93,12 @@ def check(case):
             if isinstance(err.__cause__, de.exception_types.FailedToMeetTolerances) and fam.startswith("implicit"):
                 return [], dict(nontrivial=False, labels=labels + ["reported_failure"])
             return [V("integrate_raised", "{!r} caused by {!r}".format(err, err.__cause__), fam + exc_sig(err), **attrs)], dict(nontrivial=False, labels=labels)
+    if case.get("flip_tf") and not case.get("against"):
+        try:
+            a.tf = mirror        # the span is re-declared the other way after the run, before anything is looked up
+            labels.append("tf_flipped_after_the_run")
+        except ValueError:
+            pass
     t = np.asarray(a.t, dtype=np.float64)
     y = np.asarray(a.y, dtype=np.float64)
     n = len(t)
